@@ -257,6 +257,34 @@ where
     }
 }
 
+#[cfg(feature = "verif-hooks")]
+impl<K, V, C> SplayTree<K, V, C>
+where
+    C: Fn(&K, &K) -> Ordering,
+{
+    /// Read-only in-order walk that does not splay and does not recurse: (key, value, depth).
+    /// In-order keys with depths determine the shape of the tree.
+    pub fn verif_inorder(&self) -> Vec<(&K, &V, usize)> {
+        let mut out = Vec::with_capacity(self.size);
+        let mut stack: Vec<(&Node<K, V>, usize)> = Vec::new();
+        let mut cur: Option<(&Node<K, V>, usize)> = self.root_ref().as_ref().map(|b| (&**b, 0));
+        loop {
+            while let Some((node, depth)) = cur {
+                stack.push((node, depth));
+                cur = node.left.as_ref().map(|b| (&**b, depth + 1));
+            }
+            match stack.pop() {
+                Some((node, depth)) => {
+                    out.push((&node.key, &node.value, depth));
+                    cur = node.right.as_ref().map(|b| (&**b, depth + 1));
+                }
+                None => break,
+            }
+        }
+        out
+    }
+}
+
 impl<'a, K, V, C> Index<&'a K> for SplayTree<K, V, C>
 where
     C: Fn(&K, &K) -> Ordering,
